@@ -46,7 +46,12 @@ def make_instr(tag, log):
     # how a member of a stack comes by its hooks must not matter: defined on its class, inherited from a base, or a nested stack
     if tag.endswith("1"):
         class Inherits(Rec):
-            pass
+            # ... or what else the member is: here also a sized collection of what it recorded, empty - hence falsy - when the request starts
+            def __len__(self):
+                return 0
+
+            def __bool__(self):
+                return False
         return Inherits()
     if tag.endswith("2"):
         from py_gql.execution import MultiInstrumentation
